@@ -266,7 +266,12 @@ func runC09(p c09Plan, c *stats.Case) error {
 		for !b.P.VerifTransferringHas(accKeys[0]) && time.Now().Before(deadline) {
 			time.Sleep(time.Millisecond)
 		}
-		if b.P.VerifTransferringHas(accKeys[0]) {
+		// (the receiving goroutine marks the keys right after the reply was produced: the wait above covers its start.
+		// Three seconds later the keys of a granted transfer that has not ended ARE being received, marked or not.)
+		if !b.P.VerifTransferringHas(accKeys[0]) {
+			c.Class("keys-not-marked-in-flight-3s-after-the-grant")
+		}
+		{
 			a2 := peerNode("set", p.VA, 73)
 			reply2, err2 := b.P.VerifHandleOffer(a2, &net.UDPAddr{IP: net.IP{127, 0, 0, 1}, Port: 30073}, &portalwire.Offer{ContentKeys: keys})
 			if err2 != nil {
